@@ -191,7 +191,17 @@ func runProperty(e *sym.Engine, spec *propSpec, tier string, seed int, workers i
 		queryMs = 120000
 	}
 	var reports []*sym.Report
-	for _, h := range spec.Harnesses {
+	harnesses := append([]string{}, spec.Harnesses...)
+	if tier == "thorough" {
+		harnesses = append(harnesses, spec.HarnessesThorough...)
+	}
+	// the wall-clock budget is shared: each harness gets what is left
+	deadline := time.Now().Add(budget)
+	for _, h := range harnesses {
+		budget = time.Until(deadline)
+		if budget < 20*time.Second {
+			budget = 20 * time.Second
+		}
 		rep := e.Explore(h, workers, solvers, queryMs, budget, samples)
 		printReport(rep)
 		reports = append(reports, rep)
@@ -313,7 +323,7 @@ func runProperty(e *sym.Engine, spec *propSpec, tier string, seed int, workers i
 			} else {
 				mismatched++
 				msg := fmt.Sprintf("witness replay disagrees in %s: predicted %v, native %v invalid=%q panic=%q", sr.harness, sr.s.Outcomes, r.Outcomes, r.Invalid, r.Panic)
-				fmt.Println("WITNESS-MISMATCH", msg)
+				fmt.Println("WITNESS-MISMATCH", msg, "failed="+fmt.Sprint(r.Failed), "model="+trunc(fmt.Sprint(modelForJSON(sr.s.Model)), 1500))
 				inconclusive[msg]++
 			}
 			if len(sampleOut) < 8 {
@@ -435,7 +445,7 @@ func runProperty(e *sym.Engine, spec *propSpec, tier string, seed int, workers i
 			"violations_reported":           violationLines,
 			"witness_mismatches":            mismatched,
 			"complete_within_bounds":        len(inconclusive) == 0 && !timedOut,
-			"harnesses":                     spec.Harnesses,
+			"harnesses":                     harnesses,
 		},
 		"assumptions": assumptions,
 		"wall_s":      time.Since(start).Seconds(),
@@ -512,4 +522,11 @@ func doReplay(prop, dir string) int {
 		fmt.Printf("VIOLATION property=%s replay=%s\n", p, dir)
 	}
 	return code
+}
+
+func trunc(s string, n int) string {
+	if len(s) > n {
+		return s[:n] + "…"
+	}
+	return s
 }
